@@ -125,6 +125,8 @@ def bounds(tier):
     out["Elementary/Probit (+ MaxLikeInf on the series whose finite-zone fractures are exactly on a line, scale / reversed / carried-label transformations only)"] = t["fast"]
     out["MaxLikeInf/MaxLikeFull (jittered series with >= 3 finite-zone fractures)"] = t["ml"]
     out["MaxLikeFull on zero-scatter / no-run-out starts (slow: the simplex never converges), (series, transformation)"] = t["ml_degenerate"]
+    out["histories B, A, B in one fresh interpreter (result of B must not change)"] = HISTORIES[:2 if tier == "quick" else len(HISTORIES)]
+    out["extra transformation"] = "duplabels: same rows, non-unique index labels"
     out["tolerances"] = {"Elementary/Probit rtol": RTOL_EXACT, "MaxLike parameter rtol": RTOL_ML, "MaxLike |dlogL|": DLL}
     return out
 
@@ -191,6 +193,9 @@ def transformations(n, spec):
     out = [["load", c] for c in spec["load_c"]] + [["cycles", c] for c in spec["cycle_c"]]
     out += [["perm", list(p)] for p in _perms(n, spec.get("perms", "full"), spec.get("all_perms_upto", 0))]
     out.append(["permkeep", list(reversed(range(n)))])
+    # the same rows in the same order, but with index labels that are NOT unique (two test campaigns joined with
+    # pd.concat without ignore_index): labels carry no meaning, everything must stay as it is
+    out.append(["duplabels", [i % max(2, n // 2) for i in range(n)]])
     return out
 
 
@@ -227,6 +232,7 @@ def shards(tier):
     shard per series and analyzer, simplest first), then Elementary/Probit simplest first."""
     t = _tier(tier)
     out = [("mldeg", tier, [s], xf) for s, xf in t["ml_degenerate"]]
+    out += [("history", tier, [h], None) for h in HISTORIES[:2 if tier == "quick" else len(HISTORIES)]]
     for s in sorted(_ml_series(t), key=lambda s: len(series_rows(s))):
         out.append(("ml", tier, [s], "MaxLikeFull"))
         out.append(("ml", tier, [s], "MaxLikeInf"))
@@ -242,6 +248,48 @@ def shards(tier):
     if block:
         out.append(("fast", tier, block, None))
     return out
+
+
+# Histories over several analyzer objects in ONE interpreter: analyse B, analyse another data set A whose analysis takes
+# a different branch (fewer than two mixed levels -> scatter fixed from the elementary estimate), analyse B again.
+# Each data set's result must not depend on what was analysed before it.  Every history runs in its own fresh
+# interpreter, so that a leak it provokes cannot disturb (or be hidden by) the other cases of the worker process.
+_B1 = {"k": 5.0, "levels": [250.0, 300.0, 350.0], "reps": 2, "jit": 3, "ro": "mixed2"}
+_B2 = {"k": 5.0, "levels": [250.0, 300.0, 350.0, 400.0], "reps": 1, "jit": 0, "ro": "mixed2"}
+_A1 = {"k": 5.0, "levels": [250.0, 300.0, 350.0], "reps": 2, "jit": 3, "ro": "pure1"}
+_A2 = {"k": 3.0, "levels": [250.0, 300.0, 350.0, 400.0], "reps": 1, "jit": 5, "ro": "above"}
+HISTORIES = [{"an": "MaxLikeFull", "B": _B1, "A": _A1}, {"an": "MaxLikeInf", "B": _B1, "A": _A1},
+             {"an": "MaxLikeFull", "B": _B2, "A": _A2}, {"an": "MaxLikeFull", "B": _B1, "A": _A2},
+             {"an": "Probit", "B": _B1, "A": _A1}, {"an": "Elementary", "B": _B2, "A": _A1}]
+
+
+def history_case(h):
+    """B, A, B with one analyzer class in this interpreter.  -> list of (key, detail)"""
+    first = run_an(h["an"], series_rows(h["B"]))
+    between = run_an(h["an"], series_rows(h["A"]))
+    again = run_an(h["an"], series_rows(h["B"]))
+    if _outcome(first) != _outcome(again) or (first["status"] == "ok" and any(
+            not (first["wc"][p] == again["wc"][p] or (math.isnan(first["wc"][p]) and math.isnan(again["wc"][p]))) for p in PARAMS)):
+        return [("C18/%s/result-depends-on-previously-analysed-data" % h["an"],
+                 {"first": first, "after_analysing_another_series": again, "the_other_series_gave": between})]
+    return []
+
+
+def run_history(h):
+    """history_case in a fresh interpreter"""
+    import json
+    import os
+    import subprocess
+    import sys
+    from mc import run as R
+    code = ("import json,sys; sys.path[0:0]=[%r,%r]; from mc.checks import c18; "
+            "print('HISTORY-RESULT '+json.dumps(c18.history_case(json.loads(sys.argv[1])), default=str))" %
+            (os.path.join(R.REPO, "src"), R.VERIF))
+    p = subprocess.run([sys.executable, "-c", code, json.dumps(h)], capture_output=True, text=True, cwd=R.VERIF)
+    for line in p.stdout.splitlines():
+        if line.startswith("HISTORY-RESULT "):
+            return [tuple(x) for x in json.loads(line[len("HISTORY-RESULT "):])]
+    raise RuntimeError("history subprocess failed:\n" + p.stdout[-1000:] + p.stderr[-3000:])
 
 
 # ---------------------------------------------------------------------------------------------- running pyLife
@@ -267,6 +315,8 @@ def apply_xf(rows, xf):
         return [rows[j] for j in arg], None, 1.0, 1.0
     if kind == "permkeep":
         return [rows[j] for j in arg], list(arg), 1.0, 1.0
+    if kind == "duplabels":
+        return list(rows), list(arg), 1.0, 1.0
     raise ValueError(kind)
 
 
@@ -325,11 +375,13 @@ def check_zones(rows, labels=None):
         if sorted(fin + inf) != sorted(allrows):
             viol.append(("C18/zones/not-a-partition", {"accessor": name, "finite": fin, "infinite": inf, "rows": allrows}))
             continue
-        loads = dict(zip(df.index, df.load))
-        if any(not loads[i] > trans for i in fin) or any(not loads[i] <= trans for i in inf):
+        fin_loads, inf_loads = [float(x) for x in fd.finite_zone.load], [float(x) for x in fd.infinite_zone.load]
+        if sorted(fin_loads + inf_loads) != sorted(float(x) for x in fd.load):
+            viol.append(("C18/zones/not-a-partition", {"accessor": name, "finite_loads": fin_loads, "infinite_loads": inf_loads}))
+            continue
+        if any(not x > trans for x in fin_loads) or any(not x <= trans for x in inf_loads):
             viol.append(("C18/zones/split-not-at-transition", {"accessor": name, "transition": trans,
-                                                                "finite_loads": [loads[i] for i in fin],
-                                                                "infinite_loads": [loads[i] for i in inf]}))
+                                                                "finite_loads": fin_loads, "infinite_loads": inf_loads}))
     return viol
 
 
@@ -388,7 +440,8 @@ def check_base(an, s, rows, base, el):
 def compare(an, s, rows, base, other, xf, el):
     """Metamorphic clause for one transformation.  -> (violations, counters)"""
     kind = xf[0]
-    clause = {"load": "load-scaling", "cycles": "cycle-scaling", "perm": "permutation", "permkeep": "permutation"}[kind]
+    clause = {"load": "load-scaling", "cycles": "cycle-scaling", "perm": "permutation", "permkeep": "permutation",
+              "duplabels": "non-unique-row-labels"}[kind]
     cnt = []
     if other["status"] == "raise":
         return [("C18/%s/raises-%s" % (an, other["type"]), {"msg": other["msg"], "clause": clause})], cnt
@@ -583,6 +636,15 @@ def run_shard(shard):
     kind, tier, block, xf = shard
     t = _tier(tier)
     acc = Acc()
+    if kind == "history":
+        for h in block:
+            acc.cases += 1
+            acc.evaluations += 3
+            acc.nontrivial += 1
+            for key, detail in run_history(h):
+                acc.violation(key, {"history": h}, detail)
+            acc.count("cases/%s/history" % h["an"])
+        return acc
     for s in block:
         n = len(series_rows(s))
         if kind == "fast":
@@ -600,5 +662,7 @@ def run_shard(shard):
 
 
 def replay(case):
+    if "history" in case:
+        return history_case(case["history"])
     viol, _, _ = run_case(case["an"], case["series"], case["xf"])
     return viol
